@@ -40,3 +40,6 @@ func (s *Server) VRemoveSession(sess *yamux.Session) { s.removeSession(sess) }
 
 // VShed closes up to n sessions exactly as Rebalance does.
 func (s *Server) VShed(n int) { s.shedSessions(n) }
+
+// VNodeID is the node a forwarding upstream points at.
+func (u *NodeUpstream) VNodeID() string { return u.node.ID }
